@@ -45,12 +45,33 @@
     the differential driver makes.
   * `C16_strip_partial`: removing `ESC [ … m` sequences from one painted string
     gives the string back, when the string itself contains no ESC.
+  * `C16_plain_is_coloured_stripped`: THE PLAIN RENDERING EQUALS THE COLOURED
+    RENDERING WITH ESCAPE CODES REMOVED, for a whole report.  For every source and
+    every report (any number of displays, highlights — single- or multi-line, of
+    any shape, well-behaved or not —, notes; any span, canonical or not): writing
+    the report with colour on and the real painter (`ansi`, what `colored`
+    emits), then deleting every escape sequence `ESC … m` (`stripAnsi`, the
+    two-state automaton the differential driver applies, `C16_strip_is_driver_strip`)
+    gives exactly the result of writing it with colour off — the same string, or a
+    panic on both sides.  Hypotheses, each shown necessary by a concrete
+    counterexample below:
+      - `ApiBuilt cd`: no error code and no highlight with a start message (for
+        these the two code paths of the Rust print different text: the plain path
+        drops `[code]`, and omits the newline after a multi-line start message);
+      - `SrcNoEsc src`, `CdNoEsc cd`: the source text, the message, display names,
+        highlight messages and notes contain no ESC character themselves (user
+        data containing ESC is swallowed by any escape stripper).
+    `C16_display_plain_is_coloured_stripped` is the same for one span display;
+    `C16_strip_append` is the compositional fact behind it (stripping distributes
+    over `++` when the left piece ends outside an escape sequence, which holds
+    for every piece the renderer emits).
 
   Lean: `TephraModel.Render` against `TephraModel.Spec.RenderSpec`; a span is
   `t = a ++ mid ++ z` as in C18.  Unbounded in the text, the number of lines and
   the number of highlights (< 256 multi-line ones, as in the Rust).
 -/
 import TephraProofs.RenderProof
+import TephraProofs.RenderStrip
 import TephraModel.Render
 import TephraModel.Spec.RenderSpec
 
@@ -426,5 +447,114 @@ hypothesis: the string itself contains no ESC). -/
 theorem C16_strip_partial (st : Style) (s : String) (h : ∀ c ∈ s.toList, c.toNat ≠ 27) :
     Fam.RenderF.stripAnsi ((ansi st s).toList.map (·.toNat)) = s.toList.map (·.toNat) :=
   stripAnsi_ansi st s h
+
+/-- `stripAnsi` (on strings) is the function the differential driver applies to the coloured
+output (on code points). -/
+theorem C16_strip_is_driver_strip (s : String) :
+    Fam.RenderF.stripAnsi (s.toList.map (·.toNat)) = (stripAnsi s).toList.map (·.toNat) :=
+  stripAnsi_bridge s
+
+/-- Stripping distributes over `++` when the left piece, read from outside an escape sequence,
+ends outside one (`Strips a a'`: it then emits `a'`). -/
+theorem C16_strip_append {a a' : String} (h : Strips a a') (b : String) :
+    stripAnsi (a ++ b) = stripAnsi a ++ stripAnsi b :=
+  stripAnsi_append h b
+
+/-- The plain rendering equals the coloured rendering with escape codes removed: a whole
+report, any source.  `ApiBuilt cd`: `cd.codeId = none` and no highlight has a start message;
+`SrcNoEsc src`: no character of the source text is ESC; `CdNoEsc cd`: the message, error code,
+display names, highlight messages and note texts contain no ESC. -/
+theorem C16_plain_is_coloured_stripped (src : Source) (cd : CodeDisplay)
+    (hapi : ApiBuilt cd) (hsrc : SrcNoEsc src) (hcd : CdNoEsc cd) :
+    (writeCodeDisplay ansi src { cd with colorEnabled := true }).map stripAnsi =
+      writeCodeDisplay plainPaint src { cd with colorEnabled := false } :=
+  plain_is_coloured_stripped src cd hapi hsrc hcd
+
+/-- The same for one span display. -/
+theorem C16_display_plain_is_coloured_stripped (src : Source) (sd : SpanDisplay)
+    (hstart : ∀ h ∈ sd.highlights, h.startMsg = none) (hsrc : SrcNoEsc src) (hsd : SdNoEsc sd) :
+    (writeSpanDisplay ansi true src sd).map stripAnsi = writeSpanDisplay plainPaint false src sd :=
+  display_plain_is_coloured_stripped src sd hstart hsrc hsd
+
+/-- the LF text `ab⏎cd` -/
+def stripSrc : Source :=
+  ⟨[⟨97, 1, 1⟩, ⟨98, 1, 1⟩, ⟨10, 1, 0⟩, ⟨99, 1, 1⟩, ⟨100, 1, 1⟩], ⟨.lf, 4⟩, Pos.zero⟩
+
+/-- a report on it: one display of both lines with a multi-line highlight (line 0 column 0 to
+line 1 column 1), a single-line highlight (line 1), a display note and a report note -/
+def stripCd : CodeDisplay :=
+  { message := "bad", mtype := .error, codeId := none,
+    spans := [{ name := some "src", span := ⟨⟨0, 0, 0⟩, ⟨5, 1, 2⟩⟩,
+                highlights := [⟨⟨⟨0, 0, 0⟩, ⟨4, 1, 1⟩⟩, none, some "multi", .error⟩,
+                               ⟨⟨⟨3, 1, 0⟩, ⟨5, 1, 2⟩⟩, none, some "single", .note⟩],
+                notes := [⟨.help, "try"⟩], gutter := 1 }],
+    notes := [⟨.note, "see"⟩], colorEnabled := false }
+
+/-- Non-vacuity: the report above satisfies the three hypotheses, renders (plain) to the eight
+rows shown, and hence so does its coloured rendering once stripped. -/
+example :
+    ApiBuilt stripCd ∧ SrcNoEsc stripSrc ∧ CdNoEsc stripCd ∧
+    writeCodeDisplay plainPaint stripSrc { stripCd with colorEnabled := false } =
+      .ok ("error: bad\n --> src:(0:0-1:2, bytes 0-5)\n  | \n0 | / ab\n1 | | cd\n" ++
+           "  | |_^ multi\n  |   -- single\n  = help: try\nnote: see") ∧
+    (writeCodeDisplay ansi stripSrc { stripCd with colorEnabled := true }).map stripAnsi =
+      .ok ("error: bad\n --> src:(0:0-1:2, bytes 0-5)\n  | \n0 | / ab\n1 | | cd\n" ++
+           "  | |_^ multi\n  |   -- single\n  = help: try\nnote: see") := by
+  have h1 : ApiBuilt stripCd := by decide
+  have h2 : SrcNoEsc stripSrc := by decide
+  have h3 : CdNoEsc stripCd := by decide
+  have h4 : writeCodeDisplay plainPaint stripSrc { stripCd with colorEnabled := false } =
+      .ok ("error: bad\n --> src:(0:0-1:2, bytes 0-5)\n  | \n0 | / ab\n1 | | cd\n" ++
+           "  | |_^ multi\n  |   -- single\n  = help: try\nnote: see") := by decide +kernel
+  exact ⟨h1, h2, h3, h4, (C16_plain_is_coloured_stripped stripSrc stripCd h1 h2 h3).trans h4⟩
+
+/-- Necessity of `CdNoEsc`: a report whose message is `ESC m` (nothing else) — the stripper
+swallows the message. -/
+def escMsgCd : CodeDisplay :=
+  { message := "\x1bm", mtype := .info, codeId := none, spans := [], notes := [], colorEnabled := false }
+
+example :
+    ApiBuilt escMsgCd ∧ SrcNoEsc stripSrc ∧
+    (writeCodeDisplay ansi stripSrc { escMsgCd with colorEnabled := true }).map stripAnsi ≠
+      writeCodeDisplay plainPaint stripSrc { escMsgCd with colorEnabled := false } := by
+  decide +kernel
+
+/-- Necessity of `SrcNoEsc`: the source text `ESC m`, displayed whole. -/
+def escSrc : Source := ⟨[⟨27, 1, 0⟩, ⟨109, 1, 1⟩], ⟨.lf, 4⟩, Pos.zero⟩
+def escSrcCd : CodeDisplay :=
+  { message := "m", mtype := .info, codeId := none,
+    spans := [{ name := none, span := ⟨⟨0, 0, 0⟩, ⟨2, 0, 1⟩⟩, highlights := [], notes := [], gutter := 1 }],
+    notes := [], colorEnabled := false }
+
+example :
+    ApiBuilt escSrcCd ∧ CdNoEsc escSrcCd ∧
+    (writeCodeDisplay ansi escSrc { escSrcCd with colorEnabled := true }).map stripAnsi ≠
+      writeCodeDisplay plainPaint escSrc { escSrcCd with colorEnabled := false } := by
+  decide +kernel
+
+/-- Necessity of "no error code" in `ApiBuilt`: the colour path prints `info[E1]: m`, the plain
+path `info: m`. -/
+def codeCd : CodeDisplay :=
+  { message := "m", mtype := .info, codeId := some "E1", spans := [], notes := [], colorEnabled := false }
+
+example :
+    SrcNoEsc stripSrc ∧ CdNoEsc codeCd ∧
+    (writeCodeDisplay ansi stripSrc { codeCd with colorEnabled := true }).map stripAnsi ≠
+      writeCodeDisplay plainPaint stripSrc { codeCd with colorEnabled := false } := by
+  decide +kernel
+
+/-- Necessity of "no start message" in `ApiBuilt`: a multi-line highlight with a start message —
+the plain path omits the newline after it (`  | |_^ s1 |   cd`). -/
+def startMsgCd : CodeDisplay :=
+  { message := "m", mtype := .info, codeId := none,
+    spans := [{ name := none, span := ⟨⟨0, 0, 0⟩, ⟨5, 1, 2⟩⟩,
+                highlights := [⟨⟨⟨1, 0, 1⟩, ⟨4, 1, 1⟩⟩, some "s", none, .error⟩], notes := [], gutter := 1 }],
+    notes := [], colorEnabled := false }
+
+example :
+    SrcNoEsc stripSrc ∧ CdNoEsc startMsgCd ∧
+    (writeCodeDisplay ansi stripSrc { startMsgCd with colorEnabled := true }).map stripAnsi ≠
+      writeCodeDisplay plainPaint stripSrc { startMsgCd with colorEnabled := false } := by
+  decide +kernel
 
 end Tephra.Props
